@@ -50,4 +50,15 @@ PART = {
         ],
         "race_anchors": ["dkg.(*Process).Executions", "dkg.(*Process).SeenPackets"],
     },
+    "C20": {
+        "runs": [{"name": "dkgnet-records", "pkg": P, "run": "^TestVF_C20_DKGRecords", "timeout": "15m", "timeout_thorough": "40m"}],
+        "rule": "engine dkgnet (DKG database part): a fixed script per scheme (aborted first proposal, first epoch, reshare with acceptor+rejector "
+                "aborted, reshare whose execution fails, retry that completes; 5 real processes, real bolt stores) walks the nodes through every "
+                "status the system writes; EVERY record that reaches a dkg.db is re-read with fresh objects inside the store tap: reloaded value "
+                "equals the object handed to the store field by field (instants, durations, participants, group TOML+hash, share), re-encoding "
+                "gives the stored bytes, the final group survives the operator's group-file round trip. non-trivial = every record; distinct by "
+                "(scheme, bucket, status, has group, has share, #acceptors, #rejectors).",
+        "assumptions": ["DBState.Equals is false after reload of any state with a key share (reflect.DeepEqual on projective vs affine points and on "
+                        "*crypto.Scheme func fields); counted as equals_helper_false_only_by_deepequal_of_keyshare, every field is compared with its own equality"],
+    },
 }
